@@ -1,6 +1,7 @@
 package whitespace
 
 import (
+	"github.com/ajitpratap0/GoSQLX/pkg/sql/tokenizer"
 	"strings"
 
 	"github.com/ajitpratap0/GoSQLX/pkg/linter"
@@ -73,8 +74,17 @@ func (r *ConsecutiveBlankLinesRule) Check(ctx *linter.Context) ([]linter.Violati
 	consecutiveCount := 0
 	startLine := 0
 
+	// A blank line inside a multi-line literal or comment is content of that
+	// region: it neither counts as a blank line nor may it be removed.
+	classes := tokenizer.ClassifyBytes(ctx.SQL)
+	offset := 0
+
 	for lineNum, line := range ctx.Lines {
 		trimmed := strings.TrimSpace(line)
+		if trimmed == "" && (startsInside(classes, offset) || endsInsideLiteral(classes, offset, len(line))) {
+			trimmed = "x" // treated like any non-blank line
+		}
+		offset += len(line) + 1
 
 		if trimmed == "" {
 			if consecutiveCount == 0 {
@@ -109,7 +119,11 @@ func (r *ConsecutiveBlankLinesRule) Check(ctx *linter.Context) ([]linter.Violati
 		}
 	}
 
-	// Check if file ends with too many blank lines
+	// Check if file ends with too many blank lines. The empty piece after a
+	// final newline is the end of the last line, not a blank line of its own.
+	if strings.HasSuffix(ctx.SQL, "\n") && consecutiveCount > 0 {
+		consecutiveCount--
+	}
 	if consecutiveCount > r.maxConsecutive {
 		violations = append(violations, linter.Violation{
 			Rule:       r.ID(),
@@ -137,9 +151,15 @@ func (r *ConsecutiveBlankLinesRule) Fix(content string, violations []linter.Viol
 	lines := strings.Split(content, "\n")
 	result := make([]string, 0, len(lines))
 
+	classes := tokenizer.ClassifyBytes(content)
+	offset := 0
 	consecutiveCount := 0
 	for _, line := range lines {
 		trimmed := strings.TrimSpace(line)
+		if trimmed == "" && (startsInside(classes, offset) || endsInsideLiteral(classes, offset, len(line))) {
+			trimmed = "x" // blank line inside a literal or comment: keep
+		}
+		offset += len(line) + 1
 
 		if trimmed == "" {
 			consecutiveCount++
@@ -158,7 +178,11 @@ func (r *ConsecutiveBlankLinesRule) Fix(content string, violations []linter.Viol
 		for i := len(result) - 1; i >= 0 && strings.TrimSpace(result[i]) == ""; i-- {
 			blankCount++
 		}
-		if blankCount > r.maxConsecutive {
+		limit := r.maxConsecutive
+		if strings.HasSuffix(content, "\n") {
+			limit++ // the piece after the final newline is not a blank line
+		}
+		if blankCount > limit {
 			result = result[:len(result)-1]
 		} else {
 			break
